@@ -59,7 +59,7 @@ Print Assumptions C13_parse_balanced.
 (* [ext s0 s'] contains: no bad release, the plan is unchanged, counters only grow *)
 Theorem C13_ext_meaning : forall s s', ext s s' ->
   bad_frees s' = bad_frees s /\ ms_plan s' = ms_plan s /\ ms_requests s <= ms_requests s' /\ ms_next s <= ms_next s'.
-Proof. intros s s' [a b c d]. auto. Qed.
+Proof. exact ext_meaning. Qed.
 Print Assumptions C13_ext_meaning.
 
 (* parse then release: the ledger is back to what it was *)
